@@ -676,14 +676,20 @@ def arr_text(form, xs):
 
 
 def crit_one(env, fn, form, ranges, crits, values):
-    """fn(ranges/criteria[/values]) through the parser against the reference; form 'h' host lists,
-    'l' literal arrays {a,b}, 'r' literal arrays {a;b}."""
+    """fn(ranges/criteria[/values]) through the parser against the reference; form 'h' host lists, 'c' / 'w' host
+    columns / rows as a range arrives ([[a],[b]] / [[a,b]]), 'l' literal arrays {a,b}, 'r' literal arrays {a;b}."""
     spec, cls = ref_criteria(fn, ranges, crits, values)
     vars_ = {}
 
     def arr(name, xs):
         if form == 'h':
             vars_[name] = list(xs)
+            return name
+        if form == 'c':     # a column as a host delivers a range: rows of one cell
+            vars_[name] = [[x] for x in xs]
+            return name
+        if form == 'w':     # a row: one row of cells
+            vars_[name] = [list(xs)]
             return name
         return arr_text(form, xs)
     if fn in ('SUMIF', 'COUNTIF', 'AVERAGEIF'):
@@ -755,7 +761,7 @@ class CriteriaNumeric(CritBase):
         top = 3 if tier == 'quick' else 4
         for n in range(1, top + 1):
             for c in lists_over(V, n):
-                yield ['c', c, ['h', 'l'] if (n <= 2 or (tier != 'quick' and n <= 3)) else ['h']]
+                yield ['c', c, ['h', 'c', 'w', 'l'] if (n <= 2 or (tier != 'quick' and n <= 3)) else ['h', 'c', 'w']]
         if tier != 'quick':
             for c in lists_over(V, 2):
                 yield ['cv', c]
@@ -821,7 +827,7 @@ class CriteriaText(CritBase):
     def expand(self, env, case):
         t = case[1]
         n = len(t)
-        forms = ('h', 'l') if n <= 3 else ('h',)
+        forms = ('h', 'c', 'w', 'l') if n <= 3 else ('h', 'c')
         for pat in self.PATTERNS_:
             for form in forms:
                 yield 'COUNTIF', form, [t], [pat], None
